@@ -42,7 +42,7 @@ func runC10(e *Env) {
 	c08PersistedFields(e, s)
 	c01Gate(e, s)
 	c16ProbeTable(e) // a retry is refused only on live evidence, never because the recorded run says `running`
-	cFieldVerbatim(e, "C10.record-keeps-step", "the recorded node carries the step exactly as it ran", "internal/persistence/model", "internal/persistence/model.Node", "Step", "Step", "the step written into the run's record is a rewritten copy of the step that ran (masked, normalised): a retry rebuilds its steps from the record, so the re-executed steps no longer run with the recorded variables, parameters and executor options", 2)
+	cFieldVerbatim(e, "C10.record-keeps-step", "the recorded node carries the step exactly as it ran", "internal/persistence/model", "internal/persistence/model.Node", "Step", "Step", "the step written into the run's record is a rewritten copy of the step that ran (masked, normalised): a retry rebuilds its steps from the record, so the re-executed steps no longer run with the recorded variables, parameters and executor options", 1)
 }
 
 func c10Reset(e *Env, s *Sched) {
@@ -567,8 +567,34 @@ func c10OutputsRestored(e *Env, s *Sched) {
 			repoints = append(repoints, site{ev.Site, lift(ev.Site, 0)})
 		}
 	}
+	// what matters is where the recorded map is READ: the load that yields the Range's
+	// receiver (`recorded := node…OutputVariables` may come well before the Range)
+	readPoint := func(rg ssa.CallInstruction) ssa.Instruction {
+		v := rg.Common().Args[0]
+		if fa, isFA := v.(*ssa.FieldAddr); isFA {
+			v = fa.X // the embedded sync.Map of the loaded *SyncMap
+		}
+		for d := 0; d < 3; d++ {
+			u, isU := v.(*ssa.UnOp)
+			if !isU || u.Op != token.MUL {
+				break
+			}
+			if al, isAl := u.X.(*ssa.Alloc); isAl {
+				if st := ir.StoresTo(al); len(st) == 1 {
+					v = st[0]
+					continue
+				}
+				break
+			}
+			if _, isFA := u.X.(*ssa.FieldAddr); isFA {
+				return u
+			}
+			break
+		}
+		return rg
+	}
 	for _, rg := range ranges {
-		lr := lift(rg, 0)
+		lr := lift(readPoint(rg), 0)
 		if lr == nil {
 			r.Unknown("NewExecutionGraphForRetry: position of the restoring Range", e.InstrPos(rg), "the Range is in a helper with several call sites")
 			continue
@@ -884,7 +910,15 @@ func c08PersistedFields(e *Env, s *Sched) {
 	want := []string{"Status", "Log", "StartedAt", "FinishedAt", "RetryCount", "DoneCount", "Error"}
 	// read set of FromNode: NodeState fields read
 	read := map[string]bool{}
-	for _, b := range from.Blocks {
+	// the recorder and the helpers of its package it is made of
+	var fromBlocks []*ssa.BasicBlock
+	fromBlocks = append(fromBlocks, from.Blocks...)
+	for _, g := range e.staticClosure(from) {
+		if g != from && g.Blocks != nil && rootFn(g).Package() == from.Package() {
+			fromBlocks = append(fromBlocks, g.Blocks...)
+		}
+	}
+	for _, b := range fromBlocks {
 		for _, in := range b.Instrs {
 			switch x := in.(type) {
 			case *ssa.Field:
